@@ -465,8 +465,8 @@ func (s *streamer) check(hs [2]hash.Hash, path []call, cl call, m mstate, probe 
 			}
 		}
 		if cl.op == opWrite && !wantErr {
-			// io.Writer: 0 <= n <= len(p), and n == len(p) when err == nil. Recorded, does not end the history.
-			c.Check("stream/"+cl.kind, key("n!=len(p)"), o[0].n == len(cl.p), desc(fmt.Sprintf("Write returned n=%d for len(p)=%d", o[0].n, len(cl.p))))
+			// io.Writer: 0 <= n <= len(p), and n == len(p) when err == nil. Observation only (not in the property statement).
+			observe(c, "Write-n", key("n!=len(p)"), o[0].n == len(cl.p), desc(fmt.Sprintf("Write returned n=%d for len(p)=%d", o[0].n, len(cl.p))))
 		}
 		if wantErr {
 			// the rejected call may have absorbed a prefix (unspecified), but never anything outside p[:len(p)]:
